@@ -102,9 +102,18 @@ func (n *node[T]) rotateLeft() *node[T] {
 // findMin returns the node with the minimum low value in the subtree
 func (n *node[T]) findMin() *node[T] {
 	for n.left != nil {
-		return n.left
+		n = n.left
 	}
 	return n
+}
+
+// less reports whether a precedes b in the (low, high) lexicographic order
+// used as the search key of the tree.
+func less[T Intervalable](a, b T) bool {
+	if a.GetLow() != b.GetLow() {
+		return a.GetLow() < b.GetLow()
+	}
+	return a.GetHigh() < b.GetHigh()
 }
 
 // IntervalBST is a binary search tree that stores intervals.
@@ -133,8 +142,7 @@ func (t *IntervalBST[T]) insertNode(root *node[T], item T) *node[T] {
 		}
 	}
 
-	low := item.GetLow()
-	if low < root.item.GetLow() {
+	if less(item, root.item) {
 		root.left = t.insertNode(root.left, item)
 	} else {
 		root.right = t.insertNode(root.right, item)
@@ -150,7 +158,7 @@ func (t *IntervalBST[T]) insertNode(root *node[T], item T) *node[T] {
 	// Left heavy
 	if balance > 1 {
 		// Left-Right case
-		if item.GetLow() > root.left.item.GetLow() {
+		if !less(item, root.left.item) {
 			root.left = root.left.rotateLeft()
 			return root.rotateRight()
 		}
@@ -161,7 +169,7 @@ func (t *IntervalBST[T]) insertNode(root *node[T], item T) *node[T] {
 	// Right heavy
 	if balance < -1 {
 		// Right-Left case
-		if item.GetLow() < root.right.item.GetLow() {
+		if less(item, root.right.item) {
 			root.right = root.right.rotateRight()
 			return root.rotateLeft()
 		}
@@ -187,25 +195,20 @@ func (t *IntervalBST[T]) deleteNode(root *node[T], item T) *node[T] {
 		return nil
 	}
 
-	low := item.GetLow()
-	high := item.GetHigh()
-
 	// First locate the node to delete
-	if low < root.item.GetLow() {
+	if less(item, root.item) {
 		root.left = t.deleteNode(root.left, item)
-	} else if low > root.item.GetLow() {
-		root.right = t.deleteNode(root.right, item)
-	} else if high != root.item.GetHigh() {
-		// Same low but different high, continue search
+	} else if less(root.item, item) {
 		root.right = t.deleteNode(root.right, item)
 	} else {
 		// Found the node to delete
-		t.size--
 
 		// Case with at most one child
 		if root.left == nil {
+			t.size--
 			return root.right
 		} else if root.right == nil {
+			t.size--
 			return root.left
 		}
 
@@ -213,7 +216,7 @@ func (t *IntervalBST[T]) deleteNode(root *node[T], item T) *node[T] {
 		successor := root.right.findMin()
 		root.item = successor.item
 
-		// Delete the inorder successor
+		// Delete the inorder successor (this is the removal that decrements the size)
 		root.right = t.deleteNode(root.right, successor.item)
 	}
 
